@@ -308,7 +308,87 @@ def run(chk, F):
         c06_cursor = None
     if c06_cursor is not None:
         c06_cursor.run(chk, c)
+    run_r5(chk, F)
     chk.assumptions += [
         "decides three structural panic sources in dora-parser; value-dependent unwrap/index sites in dora-frontend "
         "and termination of the type checker are not decided",
     ]
+
+
+# --------------------------------------------------------------------------- R5
+def run_r5(chk, F):
+    """Type expansion (parsety::expand_st) follows aliases without a cycle guard of its own: it trusts
+    aliasck's detector to have replaced every cyclic occurrence by SourceType::Error.  The detector is a
+    structural traversal of SourceType; a nested-type position it does not descend into is a position
+    through which an alias cycle survives detection and expansion then recurses forever (stack overflow)."""
+    r = chk.rule("C06.R5", "the alias-cycle detector (aliasck::expand_type) descends into every nested-type field of "
+                           "every SourceType variant (type expansion trusts it for termination)")
+    fe = F.crate("dora_frontend")
+    st = fe.adt("ty::SourceType")
+    fn = fe.hir_fn("aliasck::expand_type")
+    if not (r.anchor("dora_frontend::ty::SourceType", st) and r.anchor("dora_frontend::aliasck::expand_type", fn)):
+        return
+    # belief check: expansion really follows aliases and relies on the detector
+    ex = fe.hir_fn("parsety::expand_st")
+    r.anchor("dora_frontend::parsety::expand_st", ex)
+    m = None
+    for n in hirq.walk(fn["body"]):
+        if n[0] == "match":
+            m = n
+            break
+    if not r.anchor("expand_type: match on SourceType", m):
+        return
+    traversal = ("dora_frontend::aliasck::expand_type", "dora_frontend::aliasck::expand_sta")
+    nested = {}
+    for v in st["variants"]:
+        for i, f in enumerate(v["fields"]):
+            if "ty::SourceType" in f["ty"]:
+                nested.setdefault(v["name"], []).append((i, f["name"], f["ty"]))
+    r.floor("SourceType variants with nested types", len(nested), 6)
+    arms = hirq.match_arms(m)
+    for vname, fields in sorted(nested.items()):
+        # arms naming this variant
+        mine = []
+        for (pat, guard, body) in arms:
+            for sub in (pat[1] if pat[0] == "por" else [pat]):
+                d = hirq.pat_paths(sub)
+                if d and last(d[0]) == vname:
+                    mine.append((sub, guard, body))
+        for (idx, fname, fty) in fields:
+            key = "%s.%s" % (vname, fname)
+            ok_all = bool(mine)
+            detail = "no arm"
+            for (sub, guard, body) in mine:
+                bound = None
+                if sub[0] == "pts" and idx < len(sub[2]):
+                    p = sub[2][idx]
+                    if hirq.is_node(p) and p[0] == "pbind":
+                        bound = p[1]
+                elif sub[0] == "pstruct":
+                    for (fn_, p) in sub[2]:
+                        if fn_ == fname and hirq.is_node(p) and p[0] == "pbind":
+                            bound = p[1]
+                passed = False
+                if bound is not None:
+                    for cs in calls(body):
+                        if cs.callee in traversal:
+                            for a in cs.all_args():
+                                if any(n[0] == "local" and n[1] == bound for n in hirq.walk(a)):
+                                    passed = True
+                if not passed and guard is not None and bound is not None and any(
+                        n[0] == "local" and n[1] == bound for n in hirq.walk(guard)):
+                    # the guard inspects this very field (e.g. `assoc_ty.is_self()`): a leaf case of the variant;
+                    # an unguarded arm of the same variant must do the traversal
+                    if any(g2 is None for (_s, g2, _b) in mine):
+                        continue
+                if not passed:
+                    ok_all = False
+                    detail = ("field not bound (`..`/`_`)" if bound is None else "bound as `%s` but never traversed"
+                              % bound) + (" [arm has a guard]" if guard is not None else "")
+            r.instance("expand_type:%s" % key, sample={"variant": vname, "field": fname, "type": fty,
+                                                       "traversed": ok_all})
+            if not ok_all:
+                r.violation("dora_frontend::aliasck::expand_type:%s:not-traversed" % key,
+                            "the cycle detector does not descend into SourceType::%s.%s (%s): an alias that reaches "
+                            "itself through that position is not reported, and type expansion then recurses until "
+                            "the stack overflows" % (vname, fname, detail), fn["file"])
